@@ -886,6 +886,61 @@ func uniqEventsCase(c *Ctx, roots []protoreflect.MessageType, byName map[protore
 	return []byte(doc)
 }
 
+// ---------------------------------------------------------------- prototext Any
+
+// uniqAnyEvents: every sequence of up to three Any field events (type_url: / value: / expanded form)
+// through prototext; the loop of unmarshalAny is modelled by tany.
+func uniqAnyEvents(c *Ctx, byName map[protoreflect.FullName]protoreflect.MessageType) {
+	mt := byName["google.protobuf.Any"]
+	if mt == nil {
+		return
+	}
+	var seqs []string
+	var gen func(p string, n int)
+	gen = func(p string, n int) {
+		seqs = append(seqs, p)
+		if n == 0 {
+			return
+		}
+		for _, e := range "TVE" {
+			gen(p+string(e), n-1)
+		}
+	}
+	gen("", 4)
+	for _, evs := range seqs {
+		var parts []string
+		sets := 0
+		for _, e := range evs {
+			switch e {
+			case 'T':
+				parts = append(parts, `type_url: "type.googleapis.com/pb2.Nested"`)
+			case 'V':
+				parts = append(parts, `value: "\n\001a"`)
+				sets++
+			default:
+				parts = append(parts, `[type.googleapis.com/pb2.Nested] {opt_string: "b"}`)
+				sets++
+			}
+		}
+		doc := strings.Join(parts, " ")
+		obs := uniqDecode('t', []byte(doc), mt.New().Interface(), 100, false)
+		if strings.HasPrefix(obs, "err:") && strings.Contains(obs, "conflict with") || strings.Contains(obs, "more than one type") {
+			obs = "rej1"
+		}
+		fl3 := evs == "VE"
+		c.Case("uniq", "anyev", []string{evs}, []string{obs, Tok(fl3)})
+		c.Stat("anyev:" + strings.SplitN(obs, ":", 2)[0])
+		switch {
+		case obs == "panic":
+			c.PropFail("C26", "decoder panicked", "google.protobuf.Any", "t", HexB([]byte(doc)))
+		case obs == "accept" && sets >= 2 && fl3:
+			c.Known("FL3", "C26", "prototext unmarshalAny accepts `value: ... [type.url] {...}`: Any.value is given twice")
+		case obs == "accept" && sets >= 2:
+			c.PropFail("C26", "prototext Any accepted although value is given twice", "google.protobuf.Any", "t", HexB([]byte(doc)))
+		}
+	}
+}
+
 // ---------------------------------------------------------------- targeted depth documents
 
 // uniqDepthCases: chains of exactly n nested messages through known fields, unknown (discarded) fields,
@@ -1203,6 +1258,7 @@ func famUniq(c *Ctx) {
 	})
 	// boundary corpus first
 	uniqDepthCases(c, byName)
+	uniqAnyEvents(c, byName)
 	for i := 0; i < 40; i++ {
 		uniqIntsCase(c, 1+i)
 	}
